@@ -222,7 +222,8 @@ def monC14 : ObsMonitor Obs C14St where
                        expectReset := if e.isNone && ms.cfg.retry then ms.expectReset + 1 else ms.expectReset }
       else some ms
     -- the exit is known to the container once its final section reports it (backoff call, first exit callback)
-    | .bo .dur => some { ms with lastExit := none, retryDue := ms.lastCtx != 0 && !ms.croots.contains ms.lastCtx }
+    | .bo .dur => some { ms with lastExit := none, needCause := false,
+                                 retryDue := ms.lastCtx != 0 && !ms.croots.contains ms.lastCtx }
     | .bo .stop => some { ms with lastExit := none, needCause := ms.needCause || (match ms.lastExit with
                                                                                    | some (some _) => true
                                                                                    | _ => false) }
@@ -272,7 +273,9 @@ def monC14 : ObsMonitor Obs C14St where
         if ms.cbNext != 0 then none
         else
           let next := if ms.cfg.ncb ≤ 1 then 0 else 1
-          let ms := { ms with lastExit := none, needCause := ms.needCause || ms.lastExit == some e }
+          -- with a backoff configured the backoff call (which comes first) tells whose exit this is
+          let ms := if ms.cfg.retry then ms
+                    else { ms with lastExit := none, needCause := ms.needCause || ms.lastExit == some e }
           (match removeOne ms.unreported e with
            | some l => some { ms with cbNext := next, cbErr := e, unreported := l }
            | none => if e == some 0 then some { ms with cbNext := next, cbErr := e } else none)
